@@ -35,6 +35,7 @@ entries as the shape.  `Sq.resolve arg cfg` is the squeeze value in force (keywo
 -/
 import CtrlVerif.Lemmas.Shape
 import CtrlVerif.Lemmas.History
+import CtrlVerif.Lemmas.C18Eval
 
 namespace CtrlVerif.C18
 
@@ -678,5 +679,161 @@ theorem unknown_name_raises (ns : NamedSignal α) (l : List String) (s : String)
 
 example : (⟨⟨[2, 3], [1, 2, 3, 4, 5, 6]⟩, some ["y0", "y1"], none⟩ : NamedSignal Nat).getitem
     (.name "y1") = .ok ⟨[3], [4, 5, 6]⟩ := by decide
+
+/-! ## `FrequencyResponseData.eval` / `F(x)` / `evalfr(F, x)` at requested points
+
+`F.evalAt stored omega offAxis squeeze cfg` is the evaluation of a non-interpolating FRD whose
+stored frequency list is `stored` (any list: unsorted, with duplicates) at the points `omega`
+(an array of frequency values of any type `ω` with decidable equality; 0-d = scalar point). -/
+
+section evalAt
+
+variable {ω : Type} [DecidableEq ω]
+
+/-- **the frequency axis follows the evaluation points**: if every requested frequency is stored,
+the evaluation at a 1-D list of points `req` (any order, repeats allowed) with squeeze resolved to
+`False` returns a well-formed `(p, m, len req)` array — one entry on the last axis per requested
+point — and entry `(i, j, k)` is the stored entry `(i, j, q)` where `q` is the position of the
+(first) occurrence of the `k`-th requested frequency in the stored list. -/
+theorem eval_axis_follows_points (F : RespFRD α) (stored req : List ω) (p m : Nat) (arg : Sq)
+    (cfg : Cfg) (hs : F.frdata.shape = [p, m, stored.length]) (hw : F.frdata.WF)
+    (hreq : ∀ w ∈ req, w ∈ stored) (h : arg.resolve cfg.sqFreq = .false) :
+    ∃ r, F.evalAt stored ⟨[req.length], req⟩ false arg cfg = .ok r ∧ r.WF ∧
+      r.shape = [p, m, req.length] ∧
+      ∀ (i j k : Nat) (hk : k < req.length), i < p → j < m →
+        ∃ q, stored.idxOf? req[k] = some q ∧ r.get? [i, j, k] = F.frdata.get? [i, j, q] := by
+  obtain ⟨ks, hks⟩ := RespFRD.lookupFreqs_ok_of_mem hreq
+  have hlen := RespFRD.lookupFreqs_length hks
+  obtain ⟨r, hr, hrw, hrs⟩ := selectLast_ok hs hw (RespFRD.lookupFreqs_lt hks)
+  refine ⟨r, ?_, hrw, by rw [hrs, hlen], ?_⟩
+  · have h1 : ¬ ((⟨[req.length], req⟩ : NDArr ω).ndim > 1) := by simp [NDArr.ndim]
+    have h2 : ¬ ((⟨[req.length], req⟩ : NDArr ω).ndim < 1) := by simp [NDArr.ndim]
+    simp [RespFRD.evalAt, h1, hks, hr, processFreq, h2, h, squeezeFreq, bind, Except.bind]
+  · intro i j k hk hi hj
+    have hk' : k < ks.length := by rw [hlen]; exact hk
+    exact ⟨ks[k], RespFRD.lookupFreqs_getElem hks k hk, get?_selectLast hs hr i j k hi hj hk'⟩
+
+/-- the squeeze rule is applied to the full `(p, m, len req)` array (resp. the full `(p, m)`
+array for a scalar point): the evaluation under any squeeze setting is the evaluation with
+`squeeze=False` followed by the squeeze stage of `_process_frequency_response`. -/
+theorem eval_squeeze_rule (F : RespFRD α) (stored : List ω) (omega : NDArr ω) (off : Bool)
+    (arg : Sq) (cfg : Cfg) :
+    F.evalAt stored omega off arg cfg =
+      (F.evalAt stored omega off .false cfg).bind
+        fun full => squeezeFreq full F.issiso (arg.resolve cfg.sqFreq) := by
+  unfold RespFRD.evalAt
+  by_cases h1 : omega.ndim > 1
+  · simp [h1, bind, Except.bind, throw, throwThe, MonadExceptOf.throw]
+  · cases off
+    · cases hl : RespFRD.lookupFreqs stored omega.data with
+      | error e => simp [h1, hl, bind, Except.bind]
+      | ok ks =>
+        cases hsel : F.frdata.selectLast ks with
+        | error e => simp [h1, hl, hsel, bind, Except.bind]
+        | ok out =>
+          simp only [h1, hl, hsel, bind, Except.bind, if_false, Bool.false_eq_true, processFreq,
+            Sq.resolve]
+          cases (if omega.ndim < 1 then out.squeezeAxis 2 else Except.ok out) with
+          | error e => rfl
+          | ok o => simp [squeezeFreq]
+    · simp [h1, bind, Except.bind, throw, throwThe, MonadExceptOf.throw]
+
+/-- the array evaluation is the scalar evaluation, point by point: under the hypotheses of
+`eval_axis_follows_points`, the scalar evaluation at the `k`-th requested point returns the
+`(p, m)` array whose entry `(i, j)` is entry `(i, j, k)` of the array evaluation. -/
+theorem eval_point_is_scalar_eval (F : RespFRD α) (stored req : List ω) (p m : Nat)
+    (cfg : Cfg) (hs : F.frdata.shape = [p, m, stored.length]) (hw : F.frdata.WF)
+    (hreq : ∀ w ∈ req, w ∈ stored) (r : NDArr α)
+    (hr : F.evalAt stored ⟨[req.length], req⟩ false .false cfg = .ok r)
+    (k : Nat) (hk : k < req.length) :
+    ∃ s, F.evalAt stored ⟨[], [req[k]]⟩ false .false cfg = .ok s ∧ s.shape = [p, m] ∧
+      ∀ i j, i < p → j < m → s.get? [i, j] = r.get? [i, j, k] := by
+  obtain ⟨r', hr', _, _, hent⟩ :=
+    eval_axis_follows_points F stored req p m .false cfg hs hw hreq (by simp [Sq.resolve])
+  rw [hr] at hr'
+  injection hr' with hr'
+  subst hr'
+  have hmem : req[k] ∈ stored := hreq _ (List.getElem_mem hk)
+  cases hq : stored.idxOf? req[k] with
+  | none => exact absurd hmem (List.idxOf?_eq_none_iff.mp hq)
+  | some q =>
+    have hqlt : q < stored.length := (List.idxOf?_eq_some_iff.mp hq).1
+    have hl : RespFRD.lookupFreqs stored [req[k]] = .ok [q] := by
+      rw [RespFRD.lookupFreqs_cons, hq, RespFRD.lookupFreqs_nil]; rfl
+    obtain ⟨o, ho, how, hos⟩ := selectLast_ok (ks := [q]) hs hw (by simpa using hqlt)
+    have hos' : o.shape = [p, m, 1] := by simpa using hos
+    have hsq : o.squeezeAxis 2 = .ok ⟨[p, m], o.data⟩ := by
+      simp [NDArr.squeezeAxis, hos']
+    refine ⟨⟨[p, m], o.data⟩, ?_, rfl, ?_⟩
+    · simp [RespFRD.evalAt, NDArr.ndim, hl, ho, processFreq, hsq, squeezeFreq, Sq.resolve, bind,
+        Except.bind]
+    · intro i j hi hj
+      obtain ⟨q', hq', he⟩ := hent i j k hk hi hj
+      rw [hq] at hq'
+      injection hq' with hq'
+      subst hq'
+      rw [he, (get?_squeezeAxis2 hos' hsq i j hi hj).2,
+        get?_selectLast hs ho i j 0 hi hj (by simp)]
+      simp
+
+/-- a requested frequency that is not stored raises (scalar or 1-D points). -/
+theorem eval_missing_raises (F : RespFRD α) (stored : List ω) (omega : NDArr ω) (arg : Sq)
+    (cfg : Cfg) (hnd : omega.ndim ≤ 1) (h : ∃ w ∈ omega.data, w ∉ stored) :
+    F.evalAt stored omega false arg cfg = .error .missing := by
+  have h1 : ¬ omega.ndim > 1 := by omega
+  simp [RespFRD.evalAt, h1, RespFRD.lookupFreqs_missing h, bind, Except.bind]
+
+/-- a 2-D (or higher) array of points is rejected ("input list must be 1D"), and so is a point
+that is not a real frequency. -/
+theorem eval_bad_points_raise (F : RespFRD α) (stored : List ω) (omega : NDArr ω) (off : Bool)
+    (arg : Sq) (cfg : Cfg) (h : omega.ndim > 1 ∨ off = true) :
+    F.evalAt stored omega off arg cfg = .error .badArg := by
+  unfold RespFRD.evalAt
+  by_cases h1 : omega.ndim > 1
+  · simp [h1, bind, Except.bind, throw, throwThe, MonadExceptOf.throw]
+  · have : off = true := by rcases h with h | h; exact absurd h h1; exact h
+    simp [h1, this, bind, Except.bind, throw, throwThe, MonadExceptOf.throw]
+
+/-- evaluation at values = evaluation at the looked-up positions (`RespFRD.eval`). -/
+theorem eval_values_eq_positions (F : RespFRD α) (stored : List ω) (omega : NDArr ω)
+    (ks : List Nat) (arg : Sq) (cfg : Cfg) (hnd : omega.ndim ≤ 1)
+    (hl : RespFRD.lookupFreqs stored omega.data = .ok ks) :
+    F.evalAt stored omega false arg cfg = F.eval ks (decide (omega.ndim = 0)) arg cfg := by
+  have h1 : ¬ omega.ndim > 1 := by omega
+  rcases Nat.eq_zero_or_pos omega.ndim with h0 | h0
+  · simp [RespFRD.evalAt, RespFRD.eval, h1, hl, h0, bind, Except.bind]
+  · have h2 : omega.ndim = 1 := by omega
+    simp [RespFRD.evalAt, RespFRD.eval, hl, h2, bind, Except.bind]
+
+/-- in particular a repeated point is repeated on the frequency axis, and a permuted request
+permutes the frequency axis: the look-up is pointwise (`List.map`), so it commutes with
+concatenation. -/
+theorem eval_lookup_append (stored req₁ req₂ : List ω) (ks₁ ks₂ : List Nat)
+    (h₁ : RespFRD.lookupFreqs stored req₁ = .ok ks₁)
+    (h₂ : RespFRD.lookupFreqs stored req₂ = .ok ks₂) :
+    RespFRD.lookupFreqs stored (req₁ ++ req₂) = .ok (ks₁ ++ ks₂) := by
+  rw [RespFRD.lookupFreqs_ok_iff] at *
+  simp [h₁, h₂]
+
+-- repeated and descending points; stored list [1, 10, 100], data 7 8 9
+example : (⟨⟨[1, 1, 3], [7, 8, 9]⟩, 3, .none, false⟩ : RespFRD Nat).evalAt [1, 10, 100]
+    ⟨[3], [10, 10, 1]⟩ false .false {} = .ok ⟨[1, 1, 3], [8, 8, 7]⟩ := by decide
+example : (⟨⟨[1, 1, 3], [7, 8, 9]⟩, 3, .none, false⟩ : RespFRD Nat).evalAt [1, 10, 100]
+    ⟨[3], [100, 10, 1]⟩ false .none {} = .ok ⟨[3], [9, 8, 7]⟩ := by decide
+-- 2 x 1 system, four points for three stored frequencies
+example : (⟨⟨[2, 1, 3], [1, 2, 3, 4, 5, 6]⟩, 3, .none, false⟩ : RespFRD Nat).evalAt [1, 10, 100]
+    ⟨[4], [10, 1, 10, 1]⟩ false .none {} = .ok ⟨[2, 1, 4], [2, 1, 2, 1, 5, 4, 5, 4]⟩ := by decide
+-- unsorted stored list with a duplicate: the first match
+example : (⟨⟨[1, 1, 3], [7, 8, 9]⟩, 3, .none, false⟩ : RespFRD Nat).evalAt [5, 5, 2]
+    ⟨[2], [2, 5]⟩ false .true {} = .ok ⟨[2], [9, 7]⟩ := by decide
+-- scalar point, missing point, empty list of points
+example : (⟨⟨[1, 1, 3], [7, 8, 9]⟩, 3, .none, false⟩ : RespFRD Nat).evalAt [1, 10, 100]
+    ⟨[], [10]⟩ false .none {} = .ok ⟨[], [8]⟩ := by decide
+example : (⟨⟨[1, 1, 3], [7, 8, 9]⟩, 3, .none, false⟩ : RespFRD Nat).evalAt [1, 10, 100]
+    ⟨[2], [10, 3]⟩ false .none {} = .error .missing := by decide
+example : (⟨⟨[2, 1, 3], [1, 2, 3, 4, 5, 6]⟩, 3, .none, false⟩ : RespFRD Nat).evalAt [1, 10, 100]
+    ⟨[0], []⟩ false .none {} = .ok ⟨[2, 1, 0], []⟩ := by decide
+
+end evalAt
 
 end CtrlVerif.C18
